@@ -34,6 +34,8 @@ import (
 	"oras.land/oras-go/v2/content/file"
 	"oras.land/oras-go/v2/content/memory"
 	"oras.land/oras-go/v2/content/oci"
+	"oras.land/oras-go/v2/registry"
+	"oras.land/oras-go/v2/registry/remote"
 	"verifharness/common"
 	"verifharness/dag"
 )
@@ -56,7 +58,8 @@ type filterSpec struct {
 
 type caseSpec struct {
 	Graph    []dag.Encoded `json:"graph"`
-	Src      string        `json:"src"`   // mem | oci | ocireopen | file
+	Src      string        `json:"src"`   // mem | oci | ocireopen | file | remote-api | remote-tags
+	Page     int           `json:"page"`  // remote-api: referrers page size (0 = one page)
 	Style    []int         `json:"style"` // per node: 0 plain, 1 manifest fields, 2 effective type + non-nil annotations
 	Start    int           `json:"start"`
 	Limit    int           `json:"limit"`
@@ -158,9 +161,29 @@ func keepTruth(g *dag.Graph, p *dag.Node, fs []compiled) bool {
 	return true
 }
 
+// remoteTruth: the case under way reads a remote repository, whose predecessor
+// relation is the referrers (subject) relation only.
+var remoteTruth bool
+
+func isRemote(kind string) bool { return strings.HasPrefix(kind, "remote") }
+
+// truePreds is the source's predecessor relation by the generator's edge list.
+func truePreds(g *dag.Graph, x int) []int {
+	if !remoteTruth {
+		return g.Preds(x)
+	}
+	var out []int
+	for _, n := range g.Nodes {
+		if n.Subject == x {
+			out = append(out, n.ID)
+		}
+	}
+	return out
+}
+
 func filteredPreds(g *dag.Graph, x int, fs []compiled) []int {
 	var out []int
-	for _, p := range g.Preds(x) {
+	for _, p := range truePreds(g, x) {
 		if keepTruth(g, g.Nodes[p], fs) {
 			out = append(out, p)
 		}
@@ -280,6 +303,15 @@ func buildSource(g *dag.Graph, spec *caseSpec) (*built, error) {
 	cleanup := func() {}
 	var dir string
 	switch spec.Src {
+	case "remote-api", "remote-tags":
+		f := newFakeRegistry(g, spec)
+		repo, err := remote.NewRepository(f.host() + "/repo")
+		if err != nil {
+			f.srv.Close()
+			return nil, err
+		}
+		repo.PlainHTTP = true
+		return &built{store: repo, cleanup: f.srv.Close}, nil
 	case "mem":
 		m := memory.New()
 		st, gt = m, m
@@ -350,6 +382,15 @@ type recSrc struct {
 	seed  uint64
 	byKey map[string]int
 	bad   string
+	// keepOrder: the source's own order is already reproducible (fake registry)
+	keepOrder bool
+}
+
+// recLister keeps the registry.ReferrerLister capability of a remote repository.
+type recLister struct{ *recSrc }
+
+func (r recLister) Referrers(ctx context.Context, d ocispec.Descriptor, artifactType string, fn func([]ocispec.Descriptor) error) error {
+	return r.inner.(registry.ReferrerLister).Referrers(ctx, d, artifactType, fn)
 }
 
 func keyOf(d ocispec.Descriptor) string {
@@ -385,6 +426,9 @@ func (r *recSrc) Predecessors(ctx context.Context, d ocispec.Descriptor) ([]ocis
 			r.bad = "store returned an unknown predecessor " + keyOf(p)
 			return ps, nil
 		}
+	}
+	if r.keepOrder {
+		return ps, nil
 	}
 	sort.SliceStable(ps, func(i, j int) bool { return r.byKey[keyOf(ps[i])] < r.byKey[keyOf(ps[j])] })
 	pr := common.NewRand(r.seed*1000003 + uint64(x) + 17)
@@ -546,7 +590,16 @@ func runCase(spec *caseSpec) {
 		return
 	}
 	defer b.cleanup()
+	remoteTruth = isRemote(spec.Src)
+	defer func() { remoteTruth = false }()
 	rec := newRec(b.store, g, spec.PermSeed)
+	rec.keepOrder = remoteTruth
+	var hookSrc content.ReadOnlyGraphStorage = rec
+	lister := "0"
+	if remoteTruth {
+		hookSrc = recLister{rec}
+		lister = "1"
+	}
 
 	// what the source serves for every node (descriptor fields and order)
 	served := map[int][]ocispec.Descriptor{}
@@ -566,9 +619,9 @@ func runCase(spec *caseSpec) {
 			got = append(got, rec.byKey[keyOf(p)])
 		}
 		sort.Ints(got)
-		if rec.bad == "" && idsString(got) != idsString(g.Preds(n.ID)) {
+		if rec.bad == "" && idsString(got) != idsString(truePreds(g, n.ID)) {
 			run.Count("source-preds-differ")
-				fmt.Fprintf(os.Stderr, "source %s: Predecessors(%d)=%v generator %v\n", spec.Src, n.ID, got, g.Preds(n.ID))
+				fmt.Fprintf(os.Stderr, "source %s: Predecessors(%d)=%v generator %v\n", spec.Src, n.ID, got, truePreds(g, n.ID))
 			return
 		}
 	}
@@ -600,7 +653,7 @@ func runCase(spec *caseSpec) {
 
 	// ---- findRoots through the hook
 	opts := buildOpts(spec, fs)
-	roots, err := oras.VerifFindRoots(ctx, rec, startDesc, opts)
+	roots, err := oras.VerifFindRoots(ctx, hookSrc, startDesc, opts)
 	obs := "ERR"
 	var rootIDs []int
 	if err == nil {
@@ -611,10 +664,10 @@ func runCase(spec *caseSpec) {
 		rootIDs = sortedKeys(seen)
 		obs = "OK " + idsString(rootIDs)
 	}
-	line := fmt.Sprintf("FR %d %d %d %s %s %s", len(g.Nodes), spec.Limit, spec.Start, ftok, ntok, rtok)
+	line := fmt.Sprintf("FR %d %d %d %s %s %s %s", len(g.Nodes), spec.Limit, spec.Start, lister, ftok, ntok, rtok)
 	run.Case(id, line, obs)
 	if len(fs) > 0 || spec.Limit > 0 || idsString(rootIDs) != fmt.Sprint(spec.Start) {
-		run.Nontrivial(fmt.Sprintf("FR %d %d %s %s", spec.Limit, spec.Start, ftok, ntok))
+		run.Nontrivial(fmt.Sprintf("FR %d %d %s %s %s", spec.Limit, spec.Start, lister, ftok, ntok))
 	}
 	if err != nil {
 		fail("unexpected-error", fmt.Sprintf("findRoots failed on a complete source: %v", err))
@@ -655,11 +708,11 @@ func runCase(spec *caseSpec) {
 			if n.Foreign() {
 				continue
 			}
-			if !run.Thorough() && n.ID != spec.Start && len(g.Preds(n.ID)) == 0 {
+			if !run.Thorough() && n.ID != spec.Start && len(truePreds(g, n.ID)) == 0 {
 				continue
 			}
 			fid := run.NewID()
-			out, err := opts.FindPredecessors(ctx, rec, n.Desc)
+			out, err := opts.FindPredecessors(ctx, hookSrc, n.Desc)
 			o := "ERR"
 			var got []int
 			if err == nil {
@@ -672,7 +725,7 @@ func runCase(spec *caseSpec) {
 				}
 				o = sb.String()
 			}
-			run.Case(fid, fmt.Sprintf("FP %d %d %s %s %s", len(g.Nodes), n.ID, ftok, ntok, rtok), o)
+			run.Case(fid, fmt.Sprintf("FP %d %d %s %s %s %s", len(g.Nodes), n.ID, lister, ftok, ntok, rtok), o)
 			if err != nil {
 				run.OracleFail(fid, "unexpected-error", fmt.Sprintf("FindPredecessors(%d): %v", n.ID, err), spec)
 				continue
@@ -738,7 +791,7 @@ func runCase(spec *caseSpec) {
 	{
 		dst, clean, err := newDst(spec.Dst)
 		if err == nil {
-			var src content.ReadOnlyGraphStorage = rec
+			var src content.ReadOnlyGraphStorage = hookSrc
 			if spec.Raw {
 				src = b.store
 			}
@@ -757,8 +810,8 @@ func runCase(spec *caseSpec) {
 			clean()
 		}
 	}
-	// ---- ExtendedCopy (resolve, copy, tag)
-	if hangs == 0 {
+	// ---- ExtendedCopy (resolve, copy, tag); a registry tags manifests only
+	if hangs == 0 && (!remoteTruth || g.Nodes[spec.Start].IsManifest()) {
 		dst, clean, err := newDst(spec.Dst)
 		if err == nil {
 			eopts := oras.ExtendedCopyOptions{ExtendedCopyGraphOptions: buildOpts(spec, fs)}
@@ -939,7 +992,8 @@ func randomGraph(r *common.Rand) *dag.Graph {
 
 func randomSpec(r *common.Rand, g *dag.Graph) *caseSpec {
 	spec := &caseSpec{Graph: g.Encode()}
-	spec.Src = common.Pick(r, []string{"mem", "oci", "ocireopen", "ocireopen", "file"})
+	spec.Src = common.Pick(r, []string{"mem", "oci", "ocireopen", "ocireopen", "file", "remote-api", "remote-tags"})
+	spec.Page = common.Pick(r, []int{0, 0, 1, 2})
 	mode := r.Intn(4) // 0: all plain, 1: all style 1, 2: all style 2, 3: mixed
 	for range g.Nodes {
 		switch mode {
@@ -960,7 +1014,10 @@ func randomSpec(r *common.Rand, g *dag.Graph) *caseSpec {
 			continue
 		}
 		cands = append(cands, n.ID)
-		if len(g.Preds(n.ID)) > 0 {
+		remoteTruth = isRemote(spec.Src)
+		np := len(truePreds(g, n.ID))
+		remoteTruth = false
+		if np > 0 {
 			withPreds = append(withPreds, n.ID)
 		}
 	}
